@@ -34,6 +34,17 @@ def run(ctx):
     cc = res.clause('C08.c', 'R-CONTAIN', 'per-recording containment (routine and worker loop)', floor=3)
     cd = res.clause('C08.d', 'R-WHOCALLS', 'both modes reach the same play-and-compare routine', floor=1)
     ce = res.clause('C08.e', 'R-AGREE', 'parent/worker channel correlated', floor=1)
+    # ---- C08.o each run has its own worker channel and signals: nothing the Equalizer uses through `self` is one object shared by all
+    # instances (a terminate event / queue bound at class level ends or feeds the workers of other runs)
+    from . import common as _cm8c
+    co8 = res.clause('C08.o', 'R-TYPESTATE', 'events / queues / counters of a run are per instance, not class-level objects', floor=1)
+    shared8 = _cm8c.shared_class_objects(eq)
+    co8.instance('no class-level event / queue / container is used as per-run state', eq.name, not shared8)
+    co8.evaluations += 1
+    for st_, nm_ in shared8[:1]:
+        res.add(Finding('C08', 'C08.o', 'R-TYPESTATE', eq.module.relpath, eq.name, st_.lineno, norm(st_)[:100],
+                        '`%s` is one object shared by every %s: when one run ends (or starts) it signals / clears it for all the others - a worker of a run '
+                        'that is still going on exits, and its next recording gets a "process died" failure although it is fine' % (nm_, eq.name)))
     excm = ctx.excm(em.EQ_SCOPE)
     pol = em.EqPolicy(repo, excm)
     er = em.EqRoles(repo)
